@@ -88,6 +88,9 @@ COST_BAND == 16 * 14
 Ordered(c) ==
   IF ~(Continuing(c) /\ c.prev_in_range /\ ~c.pgram) THEN {}
   ELSE LET qs == Qs(c) IN
+    \* previous is within +-2 pi here, so every answer must be within +-3 pi; anything beyond +-900 degrees (clamped or
+    \* non-finite values) is flagged without doing arithmetic on it (32-bit integers)
+    IF \E i \in 1..Len(qs) : \E j \in 1..6 : Abs(qs[i][j]) > 9000000 THEN {"C04:not-nearest-representative"} ELSE
     (IF \E i \in 1..Len(qs) : \E j \in 1..(IF FiveDof(c) THEN 5 ELSE 6) : Abs(qs[i][j] - Ref(c)[j]) > HALF_AU + EQ_AU
      THEN {"C04:not-nearest-representative"} ELSE {})
     \cup (IF \E i \in 1..(Len(qs) - 1) : Cost16(c, qs[i]) > Cost16(c, qs[i + 1]) + COST_BAND
